@@ -6,7 +6,7 @@ REPO=${PSV_REPO:-/repo}
 d=$(mktemp -d /tmp/psv-baseline-XXXXXX)
 trap 'rm -rf "$d"' EXIT
 cmake -G Ninja -S "$REPO" -B "$d/b" -DCMAKE_BUILD_TYPE=RelWithDebInfo -DCMAKE_CXX_FLAGS=-Wno-error -DCMAKE_C_FLAGS=-Wno-error > "$d/cmake.log" 2>&1 || { tail -30 "$d/cmake.log"; exit 2; }
-cmake --build "$d/b" -j16 > "$d/build.log" 2>&1 || { tail -40 "$d/build.log"; exit 2; }
+cmake --build "$d/b" -j16 --target photospline-test photospline-test-templated photospline-test-fit > "$d/build.log" 2>&1 || { tail -40 "$d/build.log"; exit 2; }
 ctest --test-dir "$d/b" -j8 --timeout 1800 --output-junit "$d/junit.xml" 2>&1 | tail -15
 rc=${PIPESTATUS[0]}
 python3 - "$d/junit.xml" <<'PY'
